@@ -5,4 +5,4 @@ set -e
 cd "$(dirname "$0")"
 export PYTHONPATH="${VERIF_REPO:-/repo}:/verif" PYTHONHASHSEED=0 PYTHONDONTWRITEBYTECODE=1 PYMYSENSORS_VERIF=1
 mkdir -p _build evidence
-VERIF_UNICODE_FULL=1 /venv/bin/python -m harness.setup
+VERIF_UNICODE_FULL=1 /venv/bin/python -m harness.setup --clean "$@"
